@@ -155,6 +155,44 @@ PROPS = {
                     'Decoder::new creates Z block decoders numbered 0..Z-1 with KL/KS symbols and the configured T, N, Al; unpack_sub_blocks writes symbol idx to the positions of the RFC 4.4.1.2 layout for all T, Al, N, K',
         assumptions=['valid configuration additionally has T >= 1, Z >= 1, 1 <= N <= T/Al (RFC 4.4.1.2)', 'Verus/Z3 sound'],
         not_decided=['encoder side create_symbols (sub-block interleaving) and Encoder::new (zero padding, block numbers, source ESIs): iterator chains outside the extraction rules; bounded Kani unit K-LAYOUT planned']),
+    'C09': dict(
+        level='proof', units=[('V', 'V-SLAB', 'v_slab'), ('K', 'K-SLABMEM', None)],
+        explanation='for all symbol counts and sizes: SymbolSlab::add_assign / mulassign_scalar / fma / set_reorder and perform_op realise apply_op on the logical symbols (whole view: every other symbol unchanged), '
+                    'create_d builds the RFC D vector, gen_intermediate_symbols_with_plan == fold of apply_op over the plan; lemma: every op, hence every plan, acts independently on each byte column '
+                    '(column(apply_ops(D, ops), j) == apply_ops(column(D, j), ops)), so plans behave identically for every symbol size; xor-additivity and scalar homogeneity follow from the same element-wise form '
+                    'given GF(256) distributivity (K-GF). Bounded Kani stand-in K-SLABMEM runs the real slab ops (raw-pointer borrow, real kernels) on 3 symbols of 1..16 bytes',
+        assumptions=['kernel contracts (element-wise) assumed in V-SLAB: checked bounded by K-KERN (C11)', 'rule U2 / S3 models of from_raw_parts and &mut vec[a..b]', 'the solver\'s op list is data independent (syntactic: phases never read D)',
+                     'Enc (enc_into) as xor of intermediate symbols at the RFC index sequence: index sequence decided by K-ENCIDX on the twin enc_indices; enc_into itself external'],
+        not_decided=['additivity / homogeneity stated as consequences, not as separate machine-checked lemmas', 'enc_into body (same loop shape as enc_indices) not under contract']),
+    'C06': dict(
+        level='proof', units=[('V', 'V-SLAB', 'v_slab'), ('K', 'K-TAB', None)],
+        explanation='decided part only: plan replay applies exactly the op list with the slab interpreter (gen_intermediate_symbols_with_plan == apply_ops over the D vector), the final Reorder is the only '
+                    'logical->physical mapping and get/get_mut/get_pair_mut honour it, a plan generated on 1-byte symbols is valid for every symbol size (column independence); table well-formedness for all 477 rows',
+        assumptions=['kernel contracts (K-KERN)', SOLVER_ASSUMED],
+        not_decided=['that the 477 encoding matrices are invertible for the tabulated J(K\') (a computational fact established only by running the solver) and that the five-phase solve returns the solution: NOT decidable by function contracts here',
+                     'that the intermediate symbols satisfy the LDPC/HDPC/LT relations (needs the solver + matrix construction)']),
+    'C12': dict(
+        level='proof', units=[('K', 'K-GF', None), ('V', 'V-SLAB', 'v_slab'), ('K', 'K-SLABMEM', None), ('K', 'K-KERN', None)],
+        explanation='every unsafe site is discharged by the unit that covers it: get_unchecked table look-ups in Octet::mul/fma (K-GF, complete, Kani pointer checks); '
+                    'SymbolSlab::get_pair_mut: the safety condition of its two from_raw_parts calls (both ranges in bounds, disjoint) proved in Verus for ALL counts, symbol sizes and index pairs (rule U2); '
+                    'vector kernels, read_unaligned tails and u64->u32 reinterpretation: Kani pointer/bounds checks on the real kernels with canary bytes on both sides (K-KERN, bounded lengths), K-SLABMEM bounded',
+        assumptions=['5 vendor-intrinsic models + CPUID model (Kani stubs)', 'callers inside the solver are not under contract'],
+        not_decided=['kernels for buffer lengths beyond the bounded set (see C11)', 'whole encode/decode workloads (dynamic-analysis statement)']),
+    'C11': dict(
+        level='model_checking', units=[('K', 'K-KERN', None)],
+        explanation='bounded model checking of every x86-64 kernel (13) and the 4 dispatchers under an arbitrary CPUID on the real code: symbolic buffer contents, symbolic checked index, canary bytes, Kani pointer checks; '
+                    'concrete lengths (quick: 0,1,W-1,W,W+1,2W+7; thorough: every length 0..3W-1), offsets {0,1,7}; concrete scalars for the table-shuffle kernels (quick 0x53; thorough 4 scalars x all lengths + all 256 scalars at W+3), '
+                    'symbolic scalar and symbolic packed words for the binary kernels. NOT a proof over all lengths.',
+        assumptions=['Intel SDM models of _mm{,256,512}_shuffle_epi8, _bextr2_u32, _mm512_maskz_mov_epi8; nondeterministic CPUID/XGETBV', 'NEON kernels are cfg\'d out on this host: not covered'],
+        not_decided=['lengths >= 3W, scalars x lengths product beyond the stated set', 'NEON']),
+    'C04': dict(
+        level='proof', units=[('V', 'V-RNG', 'v_rng'), ('V', 'V-TAB', 'v_tab'), ('V', 'V-ENC', 'v_enc'), ('V', 'V-SLAB', 'v_slab'), ('K', 'K-TAB', None), ('K', 'K-RNG', None), ('K', 'K-ENCIDX', None), ('K', 'K-GF', None)],
+        explanation='decided part: Rand, Deg, Tuple equal the RFC definitions for every reachable argument (V-RNG/K-RNG); the Enc index sequence equals the RFC for every row and in-range tuple (K-ENCIDX); '
+                    'repair ESI X maps to ISI X + K\' - K and payload Enc over the encoder\'s intermediate symbols, ids as prescribed (V-ENC); D = [0^(S+H), source, 0-padding] (V-SLAB create_d); '
+                    'tables equal the pinned transcription and satisfy the RFC structural facts (K-TAB/V-TAB); GF(256) is the RFC field (K-GF). The oracle is an RFC transcription, so a consistent deviation shared by encoder and decoder is caught.',
+        assumptions=['pinned tables == RFC 6330', 'enc_into (encoder twin of enc_indices) external', SOLVER_ASSUMED],
+        not_decided=['that the intermediate symbols are THE solution of the pre-code system (solver) and that generate_constraint_matrix/generate_hdpc_rows build the RFC matrix',
+                     'source packet i carries source symbol i (source_packets uses iterator chains; planned bounded unit)', 'quick tier: enc_indices for d <= 8 only (complete d <= 30 in thorough)']),
     'C10': dict(
         level='proof', units=[('K', 'K-GF', None)],
         explanation='all harnesses loop-free over full u8 domains (spec loop of 8 steps fully unwound with unwinding assertions): complete',
